@@ -90,82 +90,10 @@ pub const ALL_CMDS: [Cmd; 36] = [
     Cmd::ToggleHopDetails,
 ];
 
-/// Mirror of the key handling in `frontend.rs::run_app` (quit commands excluded).
+/// Key handling: the statement tree read from `frontend.rs::run_app` (see `tui_loop`), quit
+/// commands excluded.
 pub fn dispatch(app: &mut TuiApp, cmd: Cmd) {
-    if app.show_help {
-        match cmd {
-            Cmd::ToggleHelp | Cmd::ToggleHelpAlt | Cmd::ClearSelection => app.toggle_help(),
-            Cmd::ToggleSettings => {
-                app.toggle_help();
-                app.toggle_settings();
-            }
-            Cmd::ToggleSettingsTab(i) => {
-                app.toggle_help();
-                app.show_settings_columns(usize::from(i));
-            }
-            _ => {}
-        }
-    } else if app.show_settings {
-        match cmd {
-            Cmd::ToggleSettings | Cmd::ClearSelection => app.toggle_settings(),
-            Cmd::ToggleSettingsTab(i) => app.show_settings_columns(usize::from(i)),
-            Cmd::PreviousTrace => app.previous_settings_tab(),
-            Cmd::NextTrace => app.next_settings_tab(),
-            Cmd::NextHop => app.next_settings_item(),
-            Cmd::PreviousHop => app.previous_settings_item(),
-            Cmd::ToggleChart => app.toggle_column_visibility(),
-            Cmd::NextHopAddress => app.move_column_down(),
-            Cmd::PreviousHopAddress => app.move_column_up(),
-            _ => {}
-        }
-    } else {
-        match cmd {
-            Cmd::ToggleHelp | Cmd::ToggleHelpAlt => app.toggle_help(),
-            Cmd::ToggleSettings => app.toggle_settings(),
-            Cmd::ToggleSettingsTab(i) => app.show_settings_columns(usize::from(i)),
-            Cmd::NextHop => app.next_hop(),
-            Cmd::PreviousHop => app.previous_hop(),
-            Cmd::PreviousTrace => {
-                if app.show_flows {
-                    app.previous_flow();
-                } else {
-                    app.previous_trace();
-                }
-            }
-            Cmd::NextTrace => {
-                if app.show_flows {
-                    app.next_flow();
-                } else {
-                    app.next_trace();
-                }
-            }
-            Cmd::NextHopAddress => app.next_hop_address(),
-            Cmd::PreviousHopAddress => app.previous_hop_address(),
-            Cmd::AddressModeIp => app.tui_config.address_mode = AddressMode::Ip,
-            Cmd::AddressModeHost => app.tui_config.address_mode = AddressMode::Host,
-            Cmd::AddressModeBoth => app.tui_config.address_mode = AddressMode::Both,
-            Cmd::ToggleFreeze => app.toggle_freeze(),
-            Cmd::ToggleChart => app.toggle_chart(),
-            Cmd::ToggleMap => app.toggle_map(),
-            Cmd::ToggleFlows => app.toggle_flows(),
-            Cmd::ExpandPrivacy => app.expand_privacy(),
-            Cmd::ContractPrivacy => app.contract_privacy(),
-            Cmd::ContractHostsMin => app.contract_hosts_min(),
-            Cmd::ExpandHostsMax => app.expand_hosts_max(),
-            Cmd::ContractHosts => app.contract_hosts(),
-            Cmd::ExpandHosts => app.expand_hosts(),
-            Cmd::ChartZoomIn => app.zoom_in(),
-            Cmd::ChartZoomOut => app.zoom_out(),
-            Cmd::ClearTraceData => {
-                app.clear();
-                app.clear_trace_data();
-            }
-            Cmd::ClearDnsCache => app.resolver.flush(),
-            Cmd::ClearSelection => app.clear(),
-            Cmd::ToggleAsInfo => app.toggle_asinfo(),
-            Cmd::ToggleHopDetails => app.toggle_hop_details(),
-        }
-    }
+    crate::tui_loop::dispatch(app, cmd);
 }
 
 #[derive(Clone, Debug, Serialize, Deserialize)]
@@ -423,14 +351,7 @@ impl Session {
     pub fn refresh_and_draw(&mut self) -> Result<(), Fail> {
         let app = &mut self.app;
         let term = &mut self.terminal;
-        catch(|| {
-            if app.frozen_start.is_none() {
-                app.snapshot_trace_data();
-                app.update_order_flow_counts();
-            }
-            app.clamp_selected_hop();
-            term.draw(|f| trippy_tui::verif::render(f, app)).map(|_| ())
-        })
+        catch(|| crate::tui_loop::refresh_and_draw(app, term))
         .map_err(|p| Fail::new(format!("draw:{}", panic_sig(&p)), format!("drawing a frame panicked: {p}")))?
         .map_err(|e| Fail::new("draw-io", e.to_string()))
     }
